@@ -29,7 +29,7 @@ func init() {
 	Register("C33", &Info{
 		Run:   runC33,
 		Quick: 10000, Thor: 1000000,
-		Rule: "a world = one fingerprint (every parrot by stratum, randomized, generated specs, HelloGolang) and version, whose peer is made hostile in one of two ways: (a) the server's byte stream is corrupted at the transport - bit flips, byte runs overwritten with drawn garbage, truncation, reset, an oversized record header, random records injected - at an offset drawn over the whole server flight and the first application records; (b) the reference server mutates one plaintext handshake message before hashing and encrypting it (ServerHello incl. HelloRetryRequest with cookie, EncryptedExtensions incl. ALPS, Certificate, CompressedCertificate, CertificateVerify, Finished, NewSessionTicket, TLS 1.2 ServerKeyExchange/ServerHelloDone): byte flips, truncation, extension, inner length fields set to extreme values, with the outer length fixed up or not, a well-formed but unsolicited extension of a drawn known type (early_data, cookie, key_share, pre_shared_key, ALPS, ECH, ...) inserted into the extension block of ServerHello / EncryptedExtensions / Certificate entry / CertificateRequest / NewSessionTicket with every enclosing length fixed up, (every tenth world enumerates message type x extension code point x body shape by run index) a CompressedCertificate whose stream is valid up to the declared length and then goes on decompressing into 48 MB, or a well-formed zstd frame of raw blocks whose header announces a 16 MiB .. 512 MiB window; (c) every fifth world: the reference server completes a genuine handshake and then misbehaves under the negotiated keys - floods of zero-length application_data records (10 .. 150000), KeyUpdate storms with and without update_requested, HelloRequest runs under TLS 1.2, a correctly keyed CBC record whose plaintext is padding only (TLS 1.0-1.2), (the client's renegotiation support drawn: never / once / freely), unexpected handshake messages of drawn types - optionally while the client's own transport writes fail once, fail for good, or block (peer stops reading); the client then keeps using the connection (Read x3, Write, Read, Close); (d) every twentieth world: the reference server completes a genuine handshake but issues an odd session ticket (zero-length, one byte, 65000 bytes, garbage) and a second connection over the same session cache follows; the client runs Handshake and then Read under a 30 s deadline; oracle: no panic in any task, the world neither deadlocks nor hits the step cap and every client call returns by the deadline, and the bytes allocated while the connection runs stay below 6 MB (the largest legitimate message is a 256 kB certificate message); non-trivial = the mutated bytes were consumed by the client; distinct = (fingerprint, hostile mode, target, mutation, offset class)",
+		Rule: "a world = one fingerprint (every parrot by stratum, randomized, generated specs, HelloGolang) and version, whose peer is made hostile in one of two ways: (a) the server's byte stream is corrupted at the transport - bit flips, byte runs overwritten with drawn garbage, truncation, reset, an oversized record header, random records injected - at an offset drawn over the whole server flight and the first application records; (b) the reference server mutates one plaintext handshake message before hashing and encrypting it (ServerHello incl. HelloRetryRequest with cookie, EncryptedExtensions incl. ALPS, Certificate, CompressedCertificate, CertificateVerify, Finished, NewSessionTicket, TLS 1.2 ServerKeyExchange/ServerHelloDone): byte flips, truncation, extension, inner length fields set to extreme values, with the outer length fixed up or not, a well-formed but unsolicited extension of a drawn known type (early_data, cookie, key_share, pre_shared_key, ALPS, ECH, ...) inserted into the extension block of ServerHello / EncryptedExtensions / Certificate entry / CertificateRequest / NewSessionTicket with every enclosing length fixed up, (two worlds in ten form the enumerated truncation stratum (message type in {ServerHello, EncryptedExtensions, Certificate, ServerKeyExchange, CertificateRequest, CertificateVerify, Finished, NewSessionTicket} x 0..127 body bytes kept, handshake length fixed up, so every field boundary of those messages is met); every tenth world enumerates message type x extension code point x body shape by run index) a CompressedCertificate whose stream is valid up to the declared length and then goes on decompressing into 48 MB, or a well-formed zstd frame of raw blocks whose header announces a 16 MiB .. 512 MiB window; (c) every fifth world: the reference server completes a genuine handshake and then misbehaves under the negotiated keys - floods of zero-length application_data records (10 .. 150000), KeyUpdate storms with and without update_requested, HelloRequest runs under TLS 1.2, a correctly keyed CBC record whose plaintext is padding only (TLS 1.0-1.2), (the client's renegotiation support drawn: never / once / freely), unexpected handshake messages of drawn types - optionally while the client's own transport writes fail once, fail for good, or block (peer stops reading); the client then keeps using the connection (Read x3, Write, Read, Close); (d) every twentieth world: the reference server completes a genuine handshake but issues an odd session ticket (zero-length, one byte, 65000 bytes, garbage) and a second connection over the same session cache follows; the client runs Handshake and then Read under a 30 s deadline; oracle: no panic in any task, the world neither deadlocks nor hits the step cap and every client call returns by the deadline, and the bytes allocated while the connection runs stay below 6 MB (the largest legitimate message is a 256 kB certificate message); non-trivial = the mutated bytes were consumed by the client; distinct = (fingerprint, hostile mode, target, mutation, offset class)",
 		Assumptions: []string{"mutation-based, not coverage-guided", "the worker process runs with a 32 MB goroutine stack limit (debug.SetMaxStack)", "allocation is measured as runtime.MemStats.TotalAlloc growth of the whole worker process during the world (client, server and harness together)"},
 		Real:        []string{"utls client from /repo"},
 		Stub:        []string{"hostile peers: corrupted utls/std server streams; reference server with message mutation", "transport, clock, crypto/rand"},
@@ -323,6 +323,27 @@ func runC33(c *Ctx) {
 			srvMax = tls.VersionTLS13
 		}
 	}
+	// two worlds in ten belong to the enumerated truncation stratum: message type x number of body
+	// bytes kept (0..127) come from the run index; the handshake length is fixed up, so the message
+	// is well-framed and ends in the middle of, or exactly at, every one of its fields
+	tcombo := int64(-1)
+	truncTypes := [...]uint8{2, 8, 11, 12, 13, 15, 20, 4}
+	if (c.Run%10 == 1 || c.Run%10 == 6) && !ccStratum && c.Run%20 != 3 {
+		tcombo = c.Run / 10 * 2
+		if c.Run%10 == 6 {
+			tcombo++
+		}
+		mode = "mutate"
+		keep := (tcombo / int64(len(truncTypes))) % 128
+		switch truncTypes[truncIdx(tcombo)] {
+		case 12:
+			srvMax = tls.VersionTLS12
+		case 8, 15:
+			srvMax = tls.VersionTLS13
+		default:
+			srvMax = []uint16{tls.VersionTLS13, tls.VersionTLS12}[(keep+tcombo/1024)%2]
+		}
+	}
 	w := c.NewWorld(simrt.Config{StepCap: 50000})
 	ccfg := negCfg()
 	ccfg.MinVersion = tls.VersionTLS10
@@ -467,7 +488,19 @@ func runC33(c *Ctx) {
 				cfg.ClientAuth = refsrv.RequestClientCert
 			}
 		}
+		truncKeep := -1
+		if tcombo >= 0 {
+			target = truncTypes[truncIdx(tcombo)]
+			truncKeep = int((tcombo / int64(len(truncTypes))) % 128)
+			if target == 13 || target == 15 {
+				cfg.ClientAuth = refsrv.RequestClientCert
+			}
+			c.Probe(fmt.Sprintf("truncation-stratum-type=%d", target))
+		}
 		nth := ch.Pick(2, "nth") // which occurrence of that type (ServerHello: 0 = HRR when present)
+		if tcombo >= 0 {
+			nth = 0
+		}
 		fix := ch.Bool(60, "fixlen")
 		// structure-aware mutation: a well-formed extension the client did not ask for is inserted
 		// into the message's extension block and every enclosing length is fixed up, so that the
@@ -487,6 +520,16 @@ func runC33(c *Ctx) {
 				return m
 			}
 			applied = true
+			if truncKeep >= 0 {
+				if truncKeep >= len(m)-4 {
+					mdesc = fmt.Sprintf("truncate-keep=%d(whole)", truncKeep)
+					return m
+				}
+				out := append([]byte(nil), m[:4+truncKeep]...)
+				out[1], out[2], out[3] = byte(truncKeep>>16), byte(truncKeep>>8), byte(truncKeep)
+				mdesc = fmt.Sprintf("truncate-keep=%d/%d", truncKeep, len(m)-4)
+				return out
+			}
 			if structured {
 				if out, d, ok := addExtension(sub, t, m, forcedType, forcedBody); ok {
 					mdesc = d
@@ -754,6 +797,10 @@ var (
 	bombBuf bytes.Buffer
 	bombZero = make([]byte, 1<<16)
 )
+
+// truncIdx spreads the message types over the run indices so that the runs other strata take away
+// do not always remove the same (type, length) cells.
+func truncIdx(tcombo int64) int64 { return (tcombo + tcombo/8 + tcombo/1024) % 8 }
 
 func pctIf(c bool, a, b int) int {
 	if c {
